@@ -49,4 +49,66 @@ def commitmentInnerHash : List String :=
 def commitmentFromRevealCalls : List String :=
   ["hashing.GetMultihash(rv)", "hashing.ComputeMultihash(uint(mh.Code), mh.Digest)"]
 
+/-! ### patches (pkg/patch/patch.go, patchvalidator/document.go) -/
+
+/-- C14: `actionConfig`, action ↦ name of the member that carries its value (sorted by action) -/
+def actionConfig : List (String × String) :=
+  [("add-also-known-as", "uris"), ("add-public-keys", "publicKeys"), ("add-services", "services"),
+   ("ietf-json-patch", "patches"), ("remove-also-known-as", "uris"), ("remove-public-keys", "ids"),
+   ("remove-services", "ids"), ("replace", "document")]
+
+def maxIDLength : Nat := 50
+def maxServiceTypeLength : Nat := 30
+def idRegexp : String := "^[A-Za-z0-9_-]+$"
+
+def allowedPurposes : List String :=
+  ["assertionMethod", "authentication", "capabilityDelegation", "capabilityInvocation", "keyAgreement"]
+
+def keyTypesGeneral : List String :=
+  ["Bls12381G2Key2020", "EcdsaSecp256k1VerificationKey2019", "Ed25519VerificationKey2018",
+   "Ed25519VerificationKey2020", "JsonWebKey2020", "X25519KeyAgreementKey2019"]
+def keyTypesVerification : List String :=
+  ["Bls12381G2Key2020", "EcdsaSecp256k1VerificationKey2019", "Ed25519VerificationKey2018",
+   "Ed25519VerificationKey2020", "JsonWebKey2020"]
+def keyTypesAgreement : List String :=
+  ["Bls12381G2Key2020", "EcdsaSecp256k1VerificationKey2019", "JsonWebKey2020", "X25519KeyAgreementKey2019"]
+
+/-- purpose ↦ permitted key types (sorted by purpose) -/
+def keyTypePurpose : List (String × List String) :=
+  [("assertionMethod", keyTypesVerification), ("authentication", keyTypesVerification),
+   ("capabilityDelegation", keyTypesVerification), ("capabilityInvocation", keyTypesVerification),
+   ("keyAgreement", keyTypesAgreement)]
+
+/-- members a public key entry may / must have -/
+def pkRequiredMembers : List String := ["type", "id"]
+def pkOptionalMembers : List String := ["purposes"]
+def pkOneOfMembers : List String := ["publicKeyJwk", "publicKeyBase58"]
+def replaceAllowedMembers : List String := ["services", "publicKeys"]
+
+/-- the key type for which base58 material is not accepted in place of a JWK -/
+def jwkOnlyKeyType : String := "JsonWebKey2020"
+
+/-- C11: pointer prefixes refused by `validateJSONPatches`, and the operation members inspected -/
+def protectedPrefixes : List String := ["/service", "/publicKey"]
+def inspectedMembers : List String := ["path", "from"]
+
+/-- C13/C07: comparison operators of the size gates (site ↦ source condition) -/
+def limitOps : List (String × String) :=
+  [("validateID", "len(id) > maxIDLength"),
+   ("validateServiceType", "len(serviceType) > maxServiceTypeLength"),
+   ("validateKeyPurposes", "len(pubKey.Purpose()) > len(allowedPurposes)"),
+   ("ParseOperation", "len(operationBuffer) > int(p.MaxOperationSize)"),
+   ("validateMultihash", "len(mh) > int(p.MaxOperationHashLength)"),
+   ("validateDeltaSize", "len(canonicalDelta) > int(p.MaxDeltaSize)")]
+
+def base58Exception : String := "pubKey.PublicKeyBase58() == \"\" || pubKey.Type() == jsonWebKey2020"
+/-- every string entry of an endpoint list is validated; the only return inside the loop is of a non-nil error -/
+def endpointLoopShape : String := "if ok; if err != nil; return err"
+def ietfConds : List String :=
+  ["err != nil", "!ok || pathMsg == nil", "err != nil", "err != nil", "!ok", "fromMsg == nil", "err != nil",
+   "err != nil", "strings.HasPrefix(path, from+\"/\")"]
+def pointerConds : List String :=
+  ["pointer != \"\" && !strings.HasPrefix(pointer, \"/\")", "strings.HasPrefix(pointer, \"/\"+document.ServiceProperty)",
+   "strings.HasPrefix(pointer, \"/\"+document.PublicKeyProperty)"]
+
 end Sidetree.Expected
